@@ -51,6 +51,7 @@ struct Geo {
   shared_ptr<ProjDataInfo> pdi;
   std::string scanner;   // label distinguishing acquisition systems
 };
+static std::string geom_json(const Geo& g);
 
 static std::string geom_json(const Geo& g) {
   const ProjDataInfo& p = *g.pdi;
@@ -138,10 +139,17 @@ struct TableCalibNorm : public BinNormalisationWithCalibration {
   std::string get_registered_name() const override { return "VerifTableCalib"; }
 };
 
+struct CompState;
 struct Obj {
   shared_ptr<BinNormalisation> norm;
   std::string json;
   shared_ptr<TableCalibNorm> cal;   // set when the top-level object is the calibrated class
+  // handles for the re-use histories (the inputs of the object are changed through the public API)
+  Geo geo;                                             // geometry of the factor tables
+  shared_ptr<BinNormalisationFromProjData> pdnorm;     // FromProjData: its data are reached through get_norm_proj_data_sptr()
+  shared_ptr<BinNormalisationPETFromComponents> comp;  // PETFromComponents
+  shared_ptr<CompState> cstate;
+  int calib = 0, br = 0;
   bool has_att = false;
   std::string projsym;              // for attenuation objects: label of the forward projector's symmetries
   shared_ptr<ForwardProjectorByBin> fp;
@@ -155,37 +163,55 @@ static shared_ptr<ExamInfo> the_exam_info() {
 
 static Obj make_trivial() { Obj o; o.norm.reset(new TrivialBinNormalisation); o.json = "{\"cls\":\"Trivial\"}"; return o; }
 
+// (re)fills the factor data of a FromProjData object in place, through its public accessor
+static void refill_pd(Obj& o, vh::Rng& rng, int lo, int hi) {
+  shared_ptr<ProjData> pdbase = o.pdnorm->get_norm_proj_data_sptr();
+  ProjDataInMemory* pd = dynamic_cast<ProjDataInMemory*>(pdbase.get());
+  for (const Bin& b : c03::all_bins(*o.geo.pdi))
+    pd->set_bin_value(Bin(b.segment_num(), b.view_num(), b.axial_pos_num(), b.tangential_pos_num(), b.timing_pos_num(), std::ldexp(1.F, rng.range(lo, hi))));
+  vh::Json j; j.str("cls", "PD").raw("g", geom_json(o.geo)).raw("tab", data5(*pd, enc_exp));
+  o.json = j.done();
+}
 static Obj make_pd(const Geo& ng, vh::Rng& rng, int lo, int hi) {
   shared_ptr<ProjDataInMemory> pd(new ProjDataInMemory(the_exam_info(), ng.pdi));
-  std::map<std::array<int, 5>, int> ex;
-  for (const Bin& b : c03::all_bins(*ng.pdi)) {
-    const int n = rng.range(lo, hi);
-    ex[{ { b.segment_num(), b.view_num(), b.axial_pos_num(), b.tangential_pos_num(), b.timing_pos_num() } }] = n;
-    pd->set_bin_value(Bin(b.segment_num(), b.view_num(), b.axial_pos_num(), b.tangential_pos_num(), b.timing_pos_num(), std::ldexp(1.F, n)));
-  }
   Obj o;
-  o.norm.reset(new BinNormalisationFromProjData(pd));
-  vh::Json j; j.str("cls", "PD").raw("g", geom_json(ng)).raw("tab", data5(*pd, enc_exp));
-  o.json = j.done();
+  o.geo = ng;
+  o.pdnorm.reset(new BinNormalisationFromProjData(pd));
+  o.norm = o.pdnorm;
+  refill_pd(o, rng, lo, hi);
   return o;
 }
 
-static Obj make_cal(const Geo& g, vh::Rng& rng, int lo, int hi, int calib, int br, int zero_every) {
-  shared_ptr<TableCalibNorm> c(new TableCalibNorm);
+static void cal_json(Obj& o) {
+  vh::Json j;
+  j.str("cls", "Cal").raw("g", geom_json(o.geo)).num("calib", o.calib).num("br", o.br)
+      .raw("tab", table5(*o.geo.pdi, [&](const Bin& b) { return enc_exp(o.cal->get_uncalibrated_bin_efficiency(b)); }));
+  o.json = j.done();
+}
+static void refill_cal(Obj& o, vh::Rng& rng, int lo, int hi, int zero_every) {
   long n = 0;
-  for (const Bin& b : c03::all_bins(*g.pdi)) {
+  for (const Bin& b : c03::all_bins(*o.geo.pdi)) {
     const int e = rng.range(lo, hi);
     const bool z = zero_every > 0 && (++n % zero_every) == 0;
-    c->tab[{ { b.segment_num(), b.view_num(), b.axial_pos_num(), b.tangential_pos_num(), b.timing_pos_num() } }] = z ? 0.F : std::ldexp(1.F, e);
+    o.cal->tab[{ { b.segment_num(), b.view_num(), b.axial_pos_num(), b.tangential_pos_num(), b.timing_pos_num() } }] = z ? 0.F : std::ldexp(1.F, e);
   }
-  c->set_calibration_factor(std::ldexp(1.F, calib));
-  if (br != 0) c->set_radionuclide(Radionuclide("verif", 511.F, std::ldexp(1.F, br), 6586.2F, ImagingModality::PT));
+  cal_json(o);
+}
+static void set_calib(Obj& o, int calib) { o.calib = calib; o.cal->set_calibration_factor(std::ldexp(1.F, calib)); cal_json(o); }
+static void set_branching(Obj& o, int br) {
+  o.br = br;
+  o.cal->set_radionuclide(Radionuclide("verif", 511.F, std::ldexp(1.F, br), 6586.2F, ImagingModality::PT));
+  cal_json(o);
+}
+static Obj make_cal(const Geo& g, vh::Rng& rng, int lo, int hi, int calib, int br, int zero_every) {
   Obj o;
-  o.norm = c; o.cal = c;
-  vh::Json j;
-  j.str("cls", "Cal").raw("g", geom_json(g)).num("calib", calib).num("br", br)
-      .raw("tab", table5(*g.pdi, [&](const Bin& b) { return enc_exp(c->get_uncalibrated_bin_efficiency(b)); }));
-  o.json = j.done();
+  o.geo = g;
+  o.cal.reset(new TableCalibNorm);
+  o.norm = o.cal;
+  o.calib = calib;
+  o.cal->set_calibration_factor(std::ldexp(1.F, calib));
+  if (br != 0) set_branching(o, br);
+  refill_cal(o, rng, lo, hi, zero_every);
   return o;
 }
 
@@ -203,51 +229,75 @@ static std::string arr4(int n1, int n2, int n3, int n4, const std::function<long
 
 // PETFromComponents on an uncompressed geometry: crystal efficiencies 2^e(ring,det), one uniform geometric factor,
 // block-pair factors 2^h(block pair) (h symmetric)
-static Obj make_comp(const Geo& g, vh::Rng& rng, bool do_eff, bool do_geo, bool do_blk, bool all_one) {
-  shared_ptr<BinNormalisationPETFromComponents> c(new BinNormalisationPETFromComponents);
-  c->allocate(g.pdi, do_eff, do_geo, do_blk);
-  const Scanner& sc = *g.pdi->get_scanner_ptr();
+struct CompState {
+  bool do_eff = false, do_geo = false, do_blk = false;
+  std::vector<std::vector<int>> effe;
+  int geoe = 0;
+  std::map<std::array<int, 4>, int> he;
+};
+static std::array<int, 4> hkey(int ra, int a, int rb, int b) {
+  return (ra < rb || (ra == rb && a <= b)) ? std::array<int, 4>{ { ra, a, rb, b } } : std::array<int, 4>{ { rb, b, ra, a } };
+}
+// writes new factors IN PLACE through crystal_efficiencies() / geometric_factors() / block_factors()
+// (which: bit 0 efficiencies, bit 1 geometric factor, bit 2 block factors)
+static void refill_comp(Obj& o, vh::Rng& rng, int which, bool all_one) {
+  BinNormalisationPETFromComponents& c = *o.comp;
+  CompState& st = *o.cstate;
+  const Scanner& sc = *o.geo.pdi->get_scanner_ptr();
   const int N = sc.get_num_detectors_per_ring(), R = sc.get_num_rings();
   const int apb = sc.get_num_axial_crystals_per_block(), tpb = sc.get_num_transaxial_crystals_per_block();
   const int nab = sc.get_num_axial_blocks(), ntb = sc.get_num_transaxial_blocks();
-  std::vector<std::vector<int>> effe(R, std::vector<int>(N, 0));
-  if (do_eff)
+  if (st.effe.empty()) st.effe.assign(R, std::vector<int>(N, 0));
+  if (st.do_eff && (which & 1))
     for (int r = 0; r < R; ++r)
       for (int d = 0; d < N; ++d) {
-        effe[r][d] = all_one ? 0 : rng.range(-2, 2);
-        c->crystal_efficiencies()[r][d] = std::ldexp(1.F, effe[r][d]);
+        st.effe[r][d] = all_one ? 0 : rng.range(-2, 2);
+        c.crystal_efficiencies()[r][d] = std::ldexp(1.F, st.effe[r][d]);
       }
-  const int geoe = all_one ? 0 : rng.range(-2, 2);
-  if (do_geo) c->geometric_factors().fill(std::ldexp(1.F, geoe));
-  // symmetric block-pair exponents
-  std::map<std::array<int, 4>, int> he;
-  auto hkey = [](int ra, int a, int rb, int b) { return (ra < rb || (ra == rb && a <= b)) ? std::array<int, 4>{ { ra, a, rb, b } } : std::array<int, 4>{ { rb, b, ra, a } }; };
-  if (do_blk) {
-    BlockData3D& bd = c->block_factors();
+  if (st.do_geo && (which & 2)) {
+    st.geoe = all_one ? 0 : rng.range(-2, 2);
+    c.geometric_factors().fill(std::ldexp(1.F, st.geoe));
+  }
+  if (st.do_blk && (which & 4)) {
+    BlockData3D& bd = c.block_factors();
+    st.he.clear();
     for (int ra = 0; ra < nab; ++ra) for (int a = 0; a < ntb; ++a) for (int rb = 0; rb < nab; ++rb) for (int b = 0; b < ntb; ++b) {
       auto k = hkey(ra, a, rb, b);
-      if (!he.count(k)) he[k] = all_one ? 0 : rng.range(-1, 1);
+      if (!st.he.count(k)) st.he[k] = all_one ? 0 : rng.range(-1, 1);
     }
     for (int ra = bd.get_min_ra(); ra <= bd.get_max_ra(); ++ra)
       for (int a = bd.get_min_a(); a <= bd.get_max_a(); ++a)
         for (int rb = bd.get_min_rb(ra); rb <= bd.get_max_rb(ra); ++rb)
           for (int b = bd.get_min_b(a); b <= bd.get_max_b(a); ++b)
-            bd(ra, a, rb, b) = std::ldexp(1.F, he[hkey(ra, a, rb, b % ntb)]);
+            bd(ra, a, rb, b) = std::ldexp(1.F, st.he[hkey(ra, a, rb, b % ntb)]);
   }
-  Obj o;
-  o.norm = c;
   vh::Json j;
-  j.str("cls", "Comp").raw("g", geom_json(g)).num("apb", apb).num("tpb", tpb).boolean("hasEff", do_eff).boolean("hasGeo", do_geo).boolean("hasBlk", do_blk)
-      .arr2("eff", effe).num("geo", geoe)
-      .raw("blk", arr4(nab, ntb, nab, ntb, [&](int ra, int a, int rb, int b) { return do_blk ? (long)he[hkey(ra, a, rb, b)] : 0L; }));
+  j.str("cls", "Comp").raw("g", geom_json(o.geo)).num("apb", apb).num("tpb", tpb).boolean("hasEff", st.do_eff).boolean("hasGeo", st.do_geo).boolean("hasBlk", st.do_blk)
+      .arr2("eff", st.effe).num("geo", st.do_geo ? st.geoe : 0)
+      .raw("blk", arr4(nab, ntb, nab, ntb, [&](int ra, int a, int rb, int b) { return st.do_blk ? (long)st.he[hkey(ra, a, rb, b)] : 0L; }));
   o.json = j.done();
+}
+// allocate (again) for the given components and fill all of them
+static void allocate_comp(Obj& o, vh::Rng& rng, bool do_eff, bool do_geo, bool do_blk, bool all_one) {
+  o.comp->allocate(o.geo.pdi, do_eff, do_geo, do_blk);
+  o.cstate.reset(new CompState);
+  o.cstate->do_eff = do_eff; o.cstate->do_geo = do_geo; o.cstate->do_blk = do_blk;
+  refill_comp(o, rng, 7, all_one);
+}
+static Obj make_comp(const Geo& g, vh::Rng& rng, bool do_eff, bool do_geo, bool do_blk, bool all_one) {
+  Obj o;
+  o.geo = g;
+  o.comp.reset(new BinNormalisationPETFromComponents);
+  o.norm = o.comp;
+  allocate_comp(o, rng, do_eff, do_geo, do_blk, all_one);
   return o;
 }
 
+static std::string chain_json(const Obj& a, const Obj& b) { return "{\"cls\":\"Chain\",\"first\":" + a.json + ",\"second\":" + b.json + "}"; }
 static Obj make_chain(const Obj& a, const Obj& b) {
   Obj o;
   o.norm.reset(new ChainedBinNormalisation(a.norm, b.norm));
-  o.json = "{\"cls\":\"Chain\",\"first\":" + a.json + ",\"second\":" + b.json + "}";
+  o.json = chain_json(a, b);
   o.has_att = a.has_att || b.has_att;
   o.projsym = a.has_att ? a.projsym : b.projsym;
   o.fp = a.has_att ? a.fp : b.fp;
@@ -409,6 +459,123 @@ static void exercise(Rec& rec, Obj& o, const Geo& g, int level, bool pre_use) {
     }
 }
 
+// ---------------------------------------------------------------- re-use histories
+// The same object is used again after its inputs were changed through the public API.  A "Mod" line carries the
+// object as it is NOW described by its inputs (resets: the API clears the set-up flag with this change).
+static void emit_mod(vh::Trace& tr, const Obj& o, const char* what, bool resets) {
+  tr.emit(vh::Json("Mod").str("what", what).boolean("resets", resets).raw("obj", o.json));
+}
+// a few calls without a new set_up
+static void use_only(Rec& rec, Obj& o, const Geo& g, const Sym* only = nullptr) {
+  const std::vector<Sym> syms = groupings(g.pdi, 0);
+  rec.all_related(o, g, only ? *only : syms[0], 4);
+  rec.whole(o, g, only ? *only : Sym{ "default", nullptr }, false);
+}
+// set_up and a short exercise
+static void light(Rec& rec, Obj& o, const Geo& g, const Sym* only = nullptr) {
+  rec.set_up(o, g);
+  rec.is_trivial(o);
+  if (!rec.lg) rec.efficiencies(o, g);
+  const std::vector<Sym> syms = groupings(g.pdi, 0);
+  if (only) { rec.all_related(o, g, *only, 8); rec.whole(o, g, *only, true); return; }
+  rec.all_related(o, g, syms[0], 6);
+  rec.all_related(o, g, syms[syms.size() > 1 ? 1 : 0], 6);
+  rec.whole(o, g, Sym{ "default", nullptr }, false);
+}
+
+static void reuse_histories(Rec& rec, vh::Rng& rng, const std::string& label, const Geo& G, const Geo& Gn, const Geo& Gsmall) {
+  vh::Trace& tr = rec.tr;
+  begin_config(tr, label + " re-use from-projdata");
+  {
+    Obj o = make_pd(Gn, rng, -2, 2);
+    emit_obj(tr, o);
+    light(rec, o, G);
+    refill_pd(o, rng, -3, 3);                      // the factor data change in place
+    emit_mod(tr, o, "factor data refilled through get_norm_proj_data_sptr()", false);
+    use_only(rec, o, G);
+    light(rec, o, G);
+    // another geometry and back
+    light(rec, o, Gsmall);
+    rec.all_related(o, G, groupings(G.pdi, 0)[0], 3);
+    light(rec, o, G);
+  }
+  begin_config(tr, label + " re-use calibrated");
+  {
+    Obj o = make_cal(G, rng, -2, 2, 1, 0, 0);
+    emit_obj(tr, o);
+    light(rec, o, G);
+    refill_cal(o, rng, -2, 2, 5);
+    emit_mod(tr, o, "uncalibrated efficiencies changed", false);
+    use_only(rec, o, G);
+    light(rec, o, G);
+    set_calib(o, 3);
+    emit_mod(tr, o, "set_calibration_factor", true);
+    use_only(rec, o, G);                            // error required
+    light(rec, o, G);
+    set_branching(o, -2);
+    emit_mod(tr, o, "set_radionuclide", false);
+    use_only(rec, o, G);
+    light(rec, o, G);
+  }
+  begin_config(tr, label + " re-use chain");
+  {
+    Obj a = make_pd(Gn, rng, -2, 2), b = make_cal(G, rng, -2, 2, 1, -1, 0);
+    Obj ch = make_chain(a, b);
+    emit_obj(tr, ch);
+    light(rec, ch, G);
+    refill_pd(a, rng, -2, 2); ch.json = chain_json(a, b);
+    emit_mod(tr, ch, "first member: factor data refilled", false);
+    use_only(rec, ch, G);
+    light(rec, ch, G);
+    set_calib(b, 2); ch.json = chain_json(a, b);
+    emit_mod(tr, ch, "second member: set_calibration_factor", true);
+    use_only(rec, ch, G);                           // error required (the member refuses)
+    light(rec, ch, G);
+    refill_cal(b, rng, -1, 1, 0); refill_pd(a, rng, -1, 1); ch.json = chain_json(a, b);
+    emit_mod(tr, ch, "both members changed", false);
+    light(rec, ch, G);
+    Obj t = make_trivial();
+    emit_obj(tr, t);
+    light(rec, t, G); light(rec, t, Gsmall); light(rec, t, G);
+  }
+}
+
+static void reuse_components(Rec& rec, vh::Rng& rng, const std::string& label, const Geo& G, const Geo& Gsmall) {
+  vh::Trace& tr = rec.tr;
+  begin_config(tr, label + " re-use components");
+  Obj o = make_comp(G, rng, true, true, true, false);
+  emit_obj(tr, o);
+  light(rec, o, G);
+  refill_comp(o, rng, 1, false);
+  emit_mod(tr, o, "crystal_efficiencies() changed in place", false);
+  light(rec, o, G);
+  refill_comp(o, rng, 2, false);
+  emit_mod(tr, o, "geometric_factors() changed in place", false);
+  light(rec, o, G);
+  refill_comp(o, rng, 4, false);
+  emit_mod(tr, o, "block_factors() changed in place", false);
+  light(rec, o, G);
+  refill_comp(o, rng, 7, true);
+  emit_mod(tr, o, "all factors set to 1 in place", false);
+  light(rec, o, G);                                  // is_trivial must now agree with what undo does
+  refill_comp(o, rng, 7, false);
+  emit_mod(tr, o, "all factors changed in place", false);
+  light(rec, o, G);
+  rec.set_up(o, Gsmall);                             // refused; then set up properly again
+  light(rec, o, G);
+  allocate_comp(o, rng, true, false, false, false);
+  emit_mod(tr, o, "allocate() again: efficiencies only", false);
+  light(rec, o, G);
+  begin_config(tr, label + " re-use components in a chain");
+  Obj p = make_pd(G, rng, -2, 2);
+  Obj ch = make_chain(o, p);
+  emit_obj(tr, ch);
+  light(rec, ch, G);
+  refill_comp(o, rng, 1, false); refill_pd(p, rng, -1, 1); ch.json = chain_json(o, p);
+  emit_mod(tr, ch, "both members changed in place", false);
+  light(rec, ch, G);
+}
+
 // ---------------------------------------------------------------- exact scenarios
 static void run_exact(vh::Trace& tr, vh::Rng& rng, int level) {
   Rec rec(tr, rng, false);
@@ -508,6 +675,7 @@ static void run_exact(vh::Trace& tr, vh::Rng& rng, int level) {
       emit_obj(tr, w); rec.set_up(w, Gother);
       rec.all_related(w, G, groupings(G.pdi, 0)[0], 3);
     }
+    if (level > 0 || sysno <= 2) reuse_histories(rec, rng, label, G, Gn, Gsmall);
   }
 
   // component-based normalisation (uncompressed non-TOF data, scanners with blocks)
@@ -543,6 +711,7 @@ static void run_exact(vh::Trace& tr, vh::Rng& rng, int level) {
       }
       if (variant == 0) { emit_obj(tr, o); rec.set_up(o, Gsmall); }   // another geometry than the allocated one
     }
+    reuse_components(rec, rng, label, G, Gsmall);
   }
 }
 
@@ -647,6 +816,21 @@ static void run_att(vh::Trace& tr, vh::Rng& rng, int level) {
         if (syms.size() > 2) rec.all_related(o, G, syms[2], 4);
       }
       objs.push_back(o);
+    }
+    // re-use: the class documents that it keeps its own copy of the image ("we won't be affected by the caller"):
+    // the caller's image is overwritten, set_up is called again (same geometry), the factors must be the recorded ones
+    {
+      Obj& o = objs[0];
+      emit_obj(tr, o);
+      Sym ps{ "proj", nullptr };
+      rec.set_up(o, G);
+      ps.sym.reset(o.fp->get_symmetries_used()->clone());
+      rec.all_related(o, G, ps, 6);
+      imgs[0].im->fill(0.37F);
+      emit_mod(tr, o, "the caller's attenuation image overwritten after construction", false);
+      rec.all_related(o, G, ps, 4);
+      light(rec, o, G, &ps);
+      light(rec, o, G, &ps);
     }
     // chains with an attenuation member
     {
